@@ -57,7 +57,7 @@ def run(ctx):
             ctx.violation('a stage ran more concurrent invocations than its limit (or the generator more instances): %s -> %s' % (line[:200], o[:400]),
                           {'case': line, 'output': o, 'cmd': 'echo "<case>" | build/harness/h_pipeline-*'})
         elif v == 1:
-            ctx.broken.append('correspondence L(C28): real trace differs from the model on ' + line[:200] + ' -> ' + o[:200])
+            ctx.broken.append('correspondence L(C28): real trace differs from the model on ' + line + ' -> ' + o[:300])
     ctx.cov['verdict_histogram'] = {'agree': hist.get(0, 0), 'differ_property_holds': hist.get(1, 0), 'limit_exceeded': hist.get(2, 0)}
     ctx.cov['traces_validated_against_impl'] += hist.get(0, 0)
     ctx.cov['status_histogram'] = {k: sum(1 for _, p, _ in kept if p['status'] == v) for k, v in (('done', 0), ('deadlock', 1), ('budget', 2))}
